@@ -218,6 +218,7 @@ def judge(acc, w, pref_name, pref, req, base_label, rem, add, feats, level):
     case = {
         "kind": "single", "req": [req[0].name] + [None if x is None else x.name for x in req[1:]],
         "features": sorted(feats), "pref": list(pref), "_level": level,
+        "label": [pref_name, base_label, list(rem), list(add)],
     }
 
     def viol(sub, what):
@@ -291,7 +292,8 @@ def judge_pipeline(acc, w, pref_name, pref, cks, base_label, feats, level):
     if exp:
         acc.count("nontrivial")
     label = "pipeline/%s:%s/pref=%s" % ("+".join(c.name for c in cks), base_label, pref_name)
-    case = {"kind": "pipeline", "cks": [c.name for c in cks], "features": sorted(feats), "pref": list(pref), "_level": level}
+    case = {"kind": "pipeline", "cks": [c.name for c in cks], "features": sorted(feats), "pref": list(pref), "_level": level,
+            "label": [pref_name, base_label]}
 
     def viol(sub, what):
         acc.violation("%s|%s" % (sub, label), what, case)
@@ -333,16 +335,40 @@ def judge_pipeline(acc, w, pref_name, pref, cks, base_label, feats, level):
 
 
 # ------------------------------------------------------------------ kernel interface
+SMALL = 20  # base kinds with at most this many features are swept with every request
+
+
 def _tier(tier):
     if tier == "quick":
-        return {"d_default": 1, "d_reversed": 0, "d_singleton": 0, "d2_bases": [], "pipeline_len": 2}
-    return {"d_default": 1, "d_reversed": 1, "d_singleton": 0, "d2_bases": "stubs", "pipeline_len": 3}
+        return {"d1_big_bases": "own-mode requests", "d1_small_bases": "all requests except 16 compilation kinds no stub supports",
+                "d1_reversed": False, "d2_bases": [], "pipeline_len": 2}
+    return {
+        "d1_big_bases": "all requests (default list); own-mode requests (reversed list)", "d1_reversed": True,
+        "d2_bases": "mc_* stubs + empty, without the 19 explicit compilation kinds", "pipeline_len": 3,
+    }
 
 
 def bounds(tier):
     w = world()
     t = _tier(tier)
     return dict(t, base_kinds=len(base_kinds(w)), features=len(w.features), requests=len(REQUESTS), engines=len(w.names))
+
+
+def own_requests(w, name, representative_unsupported=True):
+    """requests in the operation modes engine `name` implements; for compilers the compilation kinds are
+    narrowed to None, the ones it supports and one it does not (a failing Compiler call costs ~90 ms:
+    the factory rebuilds every compiler's supported kind once per feature for its error table)"""
+    E = w.cls[name]
+    out = []
+    for req in REQUESTS:
+        mode, opt, any_, pk, ck = req
+        if not getattr(E, "is_" + mode.value)():
+            continue
+        if mode == OM.COMPILER and ck is not None and not E.supports_compilation(ck):
+            if not (representative_unsupported and ck == CompilationKind.GROUNDING):
+                continue
+        out.append(req)
+    return out
 
 
 def shards(tier, seed):
@@ -352,14 +378,16 @@ def shards(tier, seed):
     out = []
     for bi in range(len(bks)):
         out.append({"level": 0, "what": "base", "base": bi})
-    for bi in range(len(bks)):
-        for part in range(2):
-            out.append({"level": 1, "what": "dev", "base": bi, "d": 1, "part": part, "nparts": 2})
-    if t["d2_bases"] == "stubs":
+        out.append({"level": 0, "what": "pipe", "base": bi})
+    for bi, (lab, fs) in enumerate(bks):
+        k = 2 if len(fs) <= SMALL else 6
+        for part in range(k):
+            out.append({"level": 1, "what": "dev", "base": bi, "d": 1, "part": part, "nparts": k})
+    if t["d2_bases"]:
         for bi, (lab, fs) in enumerate(bks):
-            if lab.startswith("mc_") or "[mc_" in lab:
-                for part in range(16):
-                    out.append({"level": 2, "what": "dev", "base": bi, "d": 2, "part": part, "nparts": 16})
+            if lab == "empty" or lab.startswith("mc_"):
+                for part in range(24):
+                    out.append({"level": 2, "what": "dev", "base": bi, "d": 2, "part": part, "nparts": 24})
     return out
 
 
@@ -377,34 +405,55 @@ def run_shard(shard, tier, seed):
     reversed_ = list(reversed(default))
     try:
         if shard["what"] == "base":
-            prefs = [("default", default), ("reversed", reversed_)] + [("only:" + n, [n]) for n in default]
-            for pn, pref in prefs:
+            for pn, pref in (("default", default), ("reversed", reversed_)):
                 w.f.preference_list = list(pref)
                 for req in REQUESTS:
                     judge(acc, w, pn, pref, req, lab, (), (), base, 0)
-            # pipelines on the base kinds
+            for n in default:  # every singleton list: only the engine's own modes can return anything
+                w.f.preference_list = [n]
+                for req in own_requests(w, n):
+                    judge(acc, w, "only:" + n, [n], req, lab, (), (), base, 0)
+            acc.sample({"base": lab, "features": sorted(base)}, limit=1)
+        elif shard["what"] == "pipe":
             cks = compiler_kinds(w)
-            for pn, pref in (("default", default), ("reversed", reversed_)):
+            kind = mk_kind(base)
+            prefs = [("default", default)] + ([("reversed", reversed_)] if len(base) <= SMALL else [])
+            for pn, pref in prefs:
                 w.f.preference_list = list(pref)
                 for c1 in cks:
-                    for c2 in cks:
+                    first = w.scan(pref, (OM.COMPILER, None, None, None, c1), kind)
+                    # when stage 1 has no compiler the rest of the pipeline is irrelevant: one representative
+                    for c2 in cks if first is not None else cks[:1]:
                         judge_pipeline(acc, w, pn, pref, (c1, c2), lab, base, 0)
-                        if t["pipeline_len"] >= 3 and (lab.startswith("mc_") or lab == "empty"):
+                        if t["pipeline_len"] >= 3 and first is not None and len(base) <= SMALL:
                             for c3 in cks:
                                 judge_pipeline(acc, w, pn, pref, (c1, c2, c3), lab, base, 0)
-            acc.sample({"base": lab, "features": sorted(base)}, limit=1)
         else:
             d = shard["d"]
             prefs = [("default", default)]
-            if t["d_reversed"] >= d:
+            if t["d1_reversed"] and d == 1:
                 prefs.append(("reversed", reversed_))
+            own = own_requests(w, lab, representative_unsupported=False) if lab in w.cls else REQUESTS
+            if d >= 2:  # small stub bases only: every request except the 19 explicit compilation kinds
+                by_pref = {"default": [r for r in REQUESTS if r[4] is None]}
+            elif len(base) <= SMALL and not t["d1_reversed"]:
+                # quick: of the explicit compilation kinds only those a stub compiler supports (the others
+                # fail for every kind alike, at ~10-90 ms per failing Compiler call)
+                stub_cks = (None, CompilationKind.GROUNDING, CompilationKind.QUANTIFIERS_REMOVING, CompilationKind.NEGATIVE_CONDITIONS_REMOVING)
+                by_pref = {"default": [r for r in REQUESTS if r[4] in stub_cks]}
+            elif len(base) <= SMALL:
+                by_pref = {"default": REQUESTS, "reversed": REQUESTS}
+            elif t["d1_reversed"]:  # thorough, big base: a failing Compiler call costs ~90 ms
+                by_pref = {"default": REQUESTS, "reversed": own}
+            else:
+                by_pref = {"default": own}
             for i, (rem, add) in enumerate(deviations(w, base, d)):
                 if i % shard["nparts"] != shard["part"]:
                     continue
                 feats = (set(base) - set(rem)) | set(add)
                 for pn, pref in prefs:
                     w.f.preference_list = list(pref)
-                    for req in REQUESTS:
+                    for req in by_pref[pn]:
                         judge(acc, w, pn, pref, req, lab, rem, add, feats, d)
     finally:
         w.f.preference_list = list(default)
@@ -418,12 +467,14 @@ def replay(case):
     w.f.preference_list = list(pref)
     try:
         if case["kind"] == "pipeline":
-            judge_pipeline(acc, w, "replay", pref, tuple(CompilationKind[c] for c in case["cks"]), "replay", set(case["features"]), 0)
+            pn, bl = case.get("label", ["replay", "replay"])[:2]
+            judge_pipeline(acc, w, pn, pref, tuple(CompilationKind[c] for c in case["cks"]), bl, set(case["features"]), case.get("_level", 0))
         else:
             r = case["req"]
             enums = (OptimalityGuarantee, AnytimeGuarantee, PlanKind, CompilationKind)
             req = (OM[r[0]],) + tuple(None if x is None else en[x] for x, en in zip(r[1:], enums))
-            judge(acc, w, "replay", pref, req, "replay", (), (), set(case["features"]), 0)
+            pn, bl, rem, add = case.get("label", ["replay", "replay", [], []])
+            judge(acc, w, pn, pref, req, bl, tuple(rem), tuple(add), set(case["features"]), case.get("_level", 0))
     finally:
         w.f.preference_list = list(w.default_pref)
     return [(fp, e["cases"][0]["what"]) for fp, e in acc.viol.items()]
